@@ -20,6 +20,12 @@ const (
 	// engine planner: when the abstract-selection rewriter rewrites a union/interface selection
 	// it keeps only one of several __typename selections (response keys)
 	findTypenameKeys = "C20-rewriter-keeps-one-typename-key"
+	// a field resolver below a list-of-lists parent fails the fetch (merge counts the inner
+	// lists, not their items)
+	findNestedListParent = "C20-resolver-below-nested-list"
+	// a field resolver selected inside a fragment on a union member: the context path ignores
+	// the oneof; the resolver is never called (null) or the compiler panics
+	findResolverInUnion = "C20-resolver-below-union-member"
 )
 
 // failure is what one of the oracles saw.
@@ -33,22 +39,35 @@ type failure struct {
 
 // ---- structural predicates over a parsed operation ---------------------------------------------
 
-// unitFields visits every field occurrence group of the operation whose definition is a unit,
-// with its underlying field path, the merged sub-selections and whether some ancestor field
-// has a nullable (or nullable-element) type.
-func (w *world) unitFields(p *parsedOp, fn func(u *unit, path string, f *ast.Field, sub []ast.SelectionSet, underNullable bool)) {
-	w.groups(p, func(t *ast.Definition, fd *ast.FieldDefinition, path string, f *ast.Field, sub []ast.SelectionSet, underNullable bool) {
+// ancestry describes the fields above a field group.
+type ancestry struct {
+	nullable   bool // some ancestor field has a nullable (or nullable-element) type
+	nestedList bool // some ancestor field has a list-of-lists type
+	abstract   bool // some ancestor field has an interface or union type
+}
+
+// unitFields visits every merged field group of the operation whose definition is a unit,
+// with its underlying field path, the merged sub-selections and its ancestry.
+func (w *world) unitFields(p *parsedOp, fn func(u *unit, path string, f *ast.Field, sub []ast.SelectionSet, anc ancestry)) {
+	w.groups(p, func(t *ast.Definition, fd *ast.FieldDefinition, path string, f *ast.Field, sub []ast.SelectionSet, anc ancestry) {
 		if u := w.units[t.Name+"."+f.Name]; u != nil {
-			fn(u, path, f, sub, underNullable)
+			fn(u, path, f, sub, anc)
 		}
 	})
 }
 
+func listDepth(t *ast.Type) int {
+	n := 0
+	for ; t != nil && t.Elem != nil; t = t.Elem {
+		n++
+	}
+	return n
+}
+
 // groups visits every merged field group (one response key of one concrete parent type).
-func (w *world) groups(p *parsedOp, fn func(t *ast.Definition, fd *ast.FieldDefinition, path string, f *ast.Field, sub []ast.SelectionSet, underNullable bool)) {
-	seen := map[string]bool{}
-	var rec func(def *ast.Definition, sets []ast.SelectionSet, prefix string, nullable bool)
-	rec = func(def *ast.Definition, sets []ast.SelectionSet, prefix string, nullable bool) {
+func (w *world) groups(p *parsedOp, fn func(t *ast.Definition, fd *ast.FieldDefinition, path string, f *ast.Field, sub []ast.SelectionSet, anc ancestry)) {
+	var rec func(def *ast.Definition, sets []ast.SelectionSet, prefix string, anc ancestry)
+	rec = func(def *ast.Definition, sets []ast.SelectionSet, prefix string, anc ancestry) {
 		for _, t := range w.possible(def) {
 			for _, c := range w.collect(sets, t) {
 				f := c.fields[0]
@@ -63,22 +82,20 @@ func (w *world) groups(p *parsedOp, fn func(t *ast.Definition, fd *ast.FieldDefi
 						sub = append(sub, ff.SelectionSet)
 					}
 				}
-				id := t.Name + "\x00" + path + "\x00" + c.key
-				if seen[id] {
-					continue
-				}
-				seen[id] = true
-				fn(t, fd, path, f, sub, nullable)
+				fn(t, fd, path, f, sub, anc)
 				if len(sub) > 0 {
-					rt := w.schema.Types[fd.Type.Name()]
-					if rt != nil {
-						rec(rt, sub, path, nullable || !fd.Type.NonNull || (fd.Type.Elem != nil && !fd.Type.Elem.NonNull))
+					if rt := w.schema.Types[fd.Type.Name()]; rt != nil {
+						rec(rt, sub, path, ancestry{
+							nullable:   anc.nullable || !fd.Type.NonNull || (fd.Type.Elem != nil && !fd.Type.Elem.NonNull),
+							nestedList: anc.nestedList || listDepth(fd.Type) > 1,
+							abstract:   anc.abstract || rt.Kind != ast.Object,
+						})
 					}
 				}
 			}
 		}
 	}
-	rec(p.root, []ast.SelectionSet{p.op.SelectionSet}, "", false)
+	rec(p.root, []ast.SelectionSet{p.op.SelectionSet}, "", ancestry{})
 }
 
 // flatFields lists, in document order, the field occurrences the datasource planner sees as
@@ -131,7 +148,7 @@ type dropSite struct {
 // equals its GraphQL name).
 func (w *world) aliasDropSites(p *parsedOp) []dropSite {
 	var out []dropSite
-	w.unitFields(p, func(u *unit, path string, f *ast.Field, sub []ast.SelectionSet, _ bool) {
+	w.unitFields(p, func(u *unit, path string, f *ast.Field, sub []ast.SelectionSet, _ ancestry) {
 		if (u.Kind != unitResolver && u.Kind != unitRequires) || len(sub) == 0 {
 			return
 		}
@@ -177,7 +194,7 @@ type typenameSite struct {
 // for __typename at the top level next to a fragment on another type (findTypenameKeys).
 func (w *world) typenameMultiSites(p *parsedOp) []typenameSite {
 	var out []typenameSite
-	w.groups(p, func(_ *ast.Definition, fd *ast.FieldDefinition, path string, _ *ast.Field, sub []ast.SelectionSet, _ bool) {
+	w.groups(p, func(_ *ast.Definition, fd *ast.FieldDefinition, path string, _ *ast.Field, sub []ast.SelectionSet, _ ancestry) {
 		rt := w.schema.Types[fd.Type.Name()]
 		if rt == nil || rt.Kind == ast.Object || len(sub) == 0 {
 			return
@@ -286,8 +303,19 @@ func (w *world) hasRepeatedEnumArg(p *parsedOp) bool {
 // resolverUnderNullable: a field resolver is selected below a nullable composite field.
 func (w *world) resolverUnderNullable(p *parsedOp) bool {
 	found := false
-	w.unitFields(p, func(u *unit, _ string, _ *ast.Field, _ []ast.SelectionSet, underNullable bool) {
-		if u.Kind == unitResolver && underNullable {
+	w.unitFields(p, func(u *unit, _ string, _ *ast.Field, _ []ast.SelectionSet, anc ancestry) {
+		if u.Kind == unitResolver && anc.nullable {
+			found = true
+		}
+	})
+	return found
+}
+
+// resolverUnder: a field resolver is selected below an ancestor with the given property.
+func (w *world) resolverUnder(p *parsedOp, prop func(ancestry) bool) bool {
+	found := false
+	w.unitFields(p, func(u *unit, _ string, _ *ast.Field, _ []ast.SelectionSet, anc ancestry) {
+		if u.Kind == unitResolver && prop(anc) {
 			found = true
 		}
 	})
@@ -336,6 +364,13 @@ func recognise(w *world, pa, pb *parsedOp, f failure) string {
 				}
 			}
 		}
+		if strings.Contains(f.msg, "nil pointer dereference") {
+			for _, p := range pick(f.side) {
+				if w.resolverUnder(p, func(a ancestry) bool { return a.abstract }) {
+					return findResolverInUnion
+				}
+			}
+		}
 	case "shape":
 		// symptom: objects lack response keys, nothing else is wrong, and every lacking key is
 		// a __typename key of a site at that position
@@ -352,6 +387,13 @@ func recognise(w *world, pa, pb *parsedOp, f failure) string {
 			for _, p := range pick(f.side) {
 				if w.resolverUnderNullable(p) {
 					return findNullParent
+				}
+			}
+		}
+		if strings.Contains(f.msg, "length of values doesn't match the length of the result array") {
+			for _, p := range pick(f.side) {
+				if w.resolverUnder(p, func(a ancestry) bool { return a.nestedList }) {
+					return findNestedListParent
 				}
 			}
 		}
@@ -382,6 +424,12 @@ func recognise(w *world, pa, pb *parsedOp, f failure) string {
 				}
 				// (b) non-null field: the lost key nulls the resolver result (or an ancestor)
 				if m.Within == "" && len(s.vals) == 1 && s.vals[0] == "null" && (site.path == u || strings.HasPrefix(site.path, u+"/") || u == "") &&
+					errorMentionsKey(s.out.resp, site.alias) {
+					return findAliasDrop
+				}
+				// (b') the same inside one response: the field is selected under two response
+				// keys and only the occurrence with the lost key is nulled
+				if m.Within == s.name && len(s.vals) == 2 && (s.vals[0] == "null" || s.vals[1] == "null") && (site.path == u || strings.HasPrefix(site.path, u+"/")) &&
 					errorMentionsKey(s.out.resp, site.alias) {
 					return findAliasDrop
 				}
